@@ -185,7 +185,8 @@ mod probes {
         use crate::utils::SerializeMsgPack;
 
         fn bpe_from(merges: &[(Vec<u8>, u32)], tag: &str) -> anyhow::Result<BPETokenizer> { bpe_from_limit(merges, tag, None) }
-        pub fn bpe_from_limit(merges: &[(Vec<u8>, u32)], tag: &str, max_vocab_size: Option<usize>) -> anyhow::Result<BPETokenizer> {
+        pub fn bpe_from_limit(merges: &[(Vec<u8>, u32)], tag: &str, max_vocab_size: Option<usize>) -> anyhow::Result<BPETokenizer> { bpe_from_cfg(merges, tag, max_vocab_size, false) }
+        pub fn bpe_from_cfg(merges: &[(Vec<u8>, u32)], tag: &str, max_vocab_size: Option<usize>, fix: bool) -> anyhow::Result<BPETokenizer> {
             let mut m: MergeOps = HashMap::new();
             for (k, v) in merges {
                 m.insert(k.clone(), *v);
@@ -194,7 +195,7 @@ mod probes {
             m.save(&p)?;
             let t = BPETokenizer::new(
                 BPETokenizerConfig { merge_file: p.clone(), max_vocab_size, use_graphemes: true },
-                SpecialConfig::default(),
+                if fix { SpecialConfig { prefix: vec!["<bos>".to_string()], suffix: vec!["<eos>".to_string()], ..SpecialConfig::default() } } else { SpecialConfig::default() },
             );
             std::fs::remove_file(&p).ok();
             t
@@ -263,6 +264,8 @@ mod probes {
         fn special_of(input: &Value) -> SpecialConfig {
             let mut tokens: Vec<String> = vec!["<unk>".into(), "<bos>".into(), "<eos>".into(), "<pad>".into()];
             if input["duplicates"].as_bool().unwrap_or(false) { tokens.push("<bos>".into()); tokens.push("<x>".into()); }
+            // a user token spelled like a generated padding token (pad_to_multiple_of)
+            if input["collision"].as_bool().unwrap_or(false) { tokens.push("<extra_token_0>".into()); }
             SpecialConfig { pad: "<pad>".into(), tokens, prefix: vec!["<bos>".into()], suffix: vec!["<eos>".into()] }
         }
         /// pad / prefix / suffix / special ids lie inside the vocabulary and are distinct from every regular id
@@ -296,10 +299,10 @@ mod probes {
                 }
             }
             for dup in [false, true] {
-                for pad_to in [None, Some(8u64), Some(128)] {
-                    let input = json!({"kind": "byte", "merges": [], "duplicates": dup, "pad_to": pad_to});
+                for pad_to in [None, Some(8u64), Some(128)] { for collision in [false, true] {
+                    let input = json!({"kind": "byte", "merges": [], "duplicates": dup, "pad_to": pad_to, "collision": collision});
                     if let Err(e) = replay(&input) { return Some((input, e)); }
-                }
+                } }
                 let input = json!({"kind": "char", "merges": [], "duplicates": dup});
                 if let Err(e) = replay(&input) { return Some((input, e)); }
             }
@@ -313,8 +316,9 @@ mod probes {
         use super::*;
         use crate::edit::*;
 
-        /// reference dynamic programme, written from the property statement (code points)
-        fn reference(a: &[char], b: &[char], sw: bool, sp: bool) -> Vec<Vec<usize>> {
+        fn ws(c: &str) -> bool { c.chars().all(char::is_whitespace) }
+        /// reference dynamic programme, written from the property statement (characters = code points or grapheme clusters)
+        fn reference(a: &[&str], b: &[&str], sw: bool, sp: bool) -> Vec<Vec<usize>> {
             let (n, m) = (a.len(), b.len());
             let mut d = vec![vec![0usize; m + 1]; n + 1];
             for i in 0..=n {
@@ -324,11 +328,11 @@ mod probes {
                     let mut best = (d[i - 1][j] + 1).min(d[i][j - 1] + 1);
                     if a[i - 1] == b[j - 1] {
                         best = best.min(d[i - 1][j - 1]);
-                    } else if !sp || (!a[i - 1].is_whitespace() && !b[j - 1].is_whitespace()) {
+                    } else if !sp || (!ws(a[i - 1]) && !ws(b[j - 1])) {
                         best = best.min(d[i - 1][j - 1] + 1);
                     }
                     if sw && i > 1 && j > 1 && a[i - 1] == b[j - 2] && a[i - 2] == b[j - 1]
-                        && (!sp || (!a[i - 1].is_whitespace() && !a[i - 2].is_whitespace())) {
+                        && (!sp || (!ws(a[i - 1]) && !ws(a[i - 2]))) {
                         best = best.min(d[i - 2][j - 2] + 1);
                     }
                     d[i][j] = best;
@@ -338,7 +342,7 @@ mod probes {
         }
 
         /// apply a position-sorted script to `a` (positions refer to a and b as reported by operations())
-        fn apply(a: &[char], b: &[char], script: &[(EditOperation, usize, usize)]) -> Option<Vec<char>> {
+        fn apply<'x>(a: &[&'x str], b: &[&'x str], script: &[(EditOperation, usize, usize)]) -> Option<Vec<&'x str>> {
             let mut out = vec![];
             let mut i = 0usize;
             for (op, ai, bj) in script {
@@ -358,15 +362,16 @@ mod probes {
             Some(out)
         }
 
-        pub fn check(a: &str, b: &str, sw: bool, sp: bool) -> Result<(), String> {
-            let (ac, bc): (Vec<char>, Vec<char>) = (a.chars().collect(), b.chars().collect());
+        pub fn check(a: &str, b: &str, sw: bool, sp: bool) -> Result<(), String> { check_g(a, b, sw, sp, false) }
+        pub fn check_g(a: &str, b: &str, sw: bool, sp: bool, g: bool) -> Result<(), String> {
+            let (ac, bc): (Vec<&str>, Vec<&str>) = (chars_ref(a, g), chars_ref(b, g));
             let d = reference(&ac, &bc, sw, sp);
             let want = d[ac.len()][bc.len()];
-            let got = distance(a, b, false, sw, sp, false);
+            let got = distance(a, b, g, sw, sp, false);
             if got != want as f64 {
-                return Err(format!("distance({a:?},{b:?},swap={sw},spaces={sp}) = {got}, reference DP = {want}"));
+                return Err(format!("distance({a:?},{b:?},graphemes={g},swap={sw},spaces={sp}) = {got}, reference DP = {want}"));
             }
-            let nd = distance(a, b, false, sw, sp, true);
+            let nd = distance(a, b, g, sw, sp, true);
             if !nd.is_finite() {
                 return Err(format!("normalized distance({a:?},{b:?}) = {nd} (not finite)"));
             }
@@ -380,14 +385,14 @@ mod probes {
             }
             let longer = ac.len().max(bc.len());
             if longer > 0 && nd != want as f64 / longer as f64 {
-                return Err(format!("normalized distance({a:?},{b:?}) = {nd}, expected {want}/{longer}"));
+                return Err(format!("normalized distance({a:?},{b:?},graphemes={g}) = {nd}, expected {want}/{longer} (the longer length in characters)"));
             }
             let pmin = *d[ac.len()].iter().min().unwrap();
-            let pd = prefix_distance(a, b, false, sw, sp, false);
+            let pd = prefix_distance(a, b, g, sw, sp, false);
             if pd != pmin as f64 {
                 return Err(format!("prefix_distance({a:?},{b:?}) = {pd}, minimum over prefixes = {pmin}"));
             }
-            let script = operations(a, b, false, sw, sp);
+            let script = operations(a, b, g, sw, sp);
             if script.len() != want {
                 return Err(format!("operations({a:?},{b:?}) has {} entries, distance is {want}", script.len()));
             }
@@ -403,11 +408,12 @@ mod probes {
         }
 
         pub fn replay(input: &Value) -> Result<(), String> {
-            check(
+            check_g(
                 input["a"].as_str().ok_or("a")?,
                 input["b"].as_str().ok_or("b")?,
                 input["with_swap"].as_bool().unwrap_or(true),
                 input["spaces_insert_delete_only"].as_bool().unwrap_or(false),
+                input["use_graphemes"].as_bool().unwrap_or(false),
             )
         }
 
@@ -442,6 +448,13 @@ mod probes {
                     }
                 }
             }
+            // grapheme mode: multi-code-point characters (combining mark, CRLF)
+            let gs = all_texts(&["a", "e\u{301}", "\r\n", " "], 3);
+            for sw in [false, true] { for sp in [false, true] { for a in &gs { for b in &gs {
+                let r = std::panic::catch_unwind(|| check_g(a, b, sw, sp, true));
+                let e = match r { Ok(Ok(())) => continue, Ok(Err(e)) => e, Err(_) => "panic".to_string() };
+                return Some((json!({"a": a, "b": b, "with_swap": sw, "spaces_insert_delete_only": sp, "use_graphemes": true}), e));
+            } } } }
             None
         }
     }
@@ -1221,11 +1234,11 @@ mod probes {
 
         /// the assumed contract of merge_bytes, through tokenize / de_tokenize: every id is a vocabulary id and decoding
         /// (special tokens ignored on both sides) gives the text without its trailing whitespace
-        pub fn check(merges: &[(Vec<u8>, u32)], limit: Option<usize>, text: &str) -> Result<(), String> { check_with(None, merges, limit, text) }
-        fn check_with(cached: Option<&BPETokenizer>, merges: &[(Vec<u8>, u32)], limit: Option<usize>, text: &str) -> Result<(), String> {
-            let what = format!("BPE(merges={:?}, max_vocab_size={limit:?})", merges.iter().map(|(k, v)| (String::from_utf8_lossy(k).to_string(), *v)).collect::<Vec<_>>());
+        pub fn check(merges: &[(Vec<u8>, u32)], limit: Option<usize>, fix: bool, text: &str) -> Result<(), String> { check_with(None, merges, limit, fix, text) }
+        fn check_with(cached: Option<&BPETokenizer>, merges: &[(Vec<u8>, u32)], limit: Option<usize>, fix: bool, text: &str) -> Result<(), String> {
+            let what = format!("BPE(merges={:?}, max_vocab_size={limit:?}, prefix/suffix={fix})", merges.iter().map(|(k, v)| (String::from_utf8_lossy(k).to_string(), *v)).collect::<Vec<_>>());
             let built;
-            let t = match cached { Some(t) => t, None => { built = super::c04::bpe_from_limit(merges, "c02", limit).map_err(|e| e.to_string())?; &built } };
+            let t = match cached { Some(t) => t, None => { built = super::c04::bpe_from_cfg(merges, "c02", limit, fix).map_err(|e| e.to_string())?; &built } };
             let r = std::panic::catch_unwind(std::panic::AssertUnwindSafe(|| t.tokenize(text, true)));
             let tok = match r { Err(_) => return Err(format!("{what}.tokenize({text:?}) panics")), Ok(Err(e)) => return Err(format!("{what}.tokenize({text:?}) failed: {e}")), Ok(Ok(t)) => t };
             let n = t.vocab_size() as u32;
@@ -1237,7 +1250,7 @@ mod probes {
         }
         pub fn replay(input: &Value) -> Result<(), String> {
             let merges: Vec<(Vec<u8>, u32)> = input["merges"].as_array().ok_or("merges")?.iter().map(|e| (e[0].as_str().unwrap().as_bytes().to_vec(), e[1].as_u64().unwrap() as u32)).collect();
-            check(&merges, input["max_vocab_size"].as_u64().map(|x| x as usize), input["text"].as_str().unwrap_or(""))
+            check(&merges, input["max_vocab_size"].as_u64().map(|x| x as usize), input["fix"].as_bool().unwrap_or(false), input["text"].as_str().unwrap_or(""))
         }
         /// BOUND: 7 merge tables (incl. multi-level, overlapping, whitespace-prefixed and multi-byte merges) x truncating
         /// max_vocab_size x every text of at most 5 pieces from {a, b, c, space, U+00E4, newline}
@@ -1251,18 +1264,19 @@ mod probes {
             let mut cases = 0usize;
             for tb in &tables {
                 let merges: Vec<(Vec<u8>, u32)> = tb.iter().map(|(k, v)| (k.as_bytes().to_vec(), *v)).collect();
-                for limit in [None, Some(260 + tb.len() / 2)] {
-                    let tok = super::c04::bpe_from_limit(&merges, "c02", limit).ok();
-                    for text in &texts {
+                for limit in [None, Some(260 + tb.len() / 2)] { for fix in [false, true] {
+                    let tok = super::c04::bpe_from_cfg(&merges, "c02", limit, fix).ok();
+                    for (k, text) in texts.iter().enumerate() {
+                        if fix && k % 4 != 0 { continue; }
                         cases += 1;
-                        if let Err(e) = check_with(tok.as_ref(), &merges, limit, text) {
+                        if let Err(e) = check_with(tok.as_ref(), &merges, limit, fix, text) {
                             if found.is_empty() {
                                 let m: Vec<Value> = tb.iter().map(|(k, v)| json!([k, v])).collect();
-                                found.push((json!({"merges": m, "max_vocab_size": limit, "text": text}), e, "lossless".to_string()));
+                                found.push((json!({"merges": m, "max_vocab_size": limit, "fix": fix, "text": text}), e, "lossless".to_string()));
                             }
                         }
                     }
-                }
+                } }
             }
             (found, cases)
         }
